@@ -54,6 +54,12 @@ pub fn parse_wevs(toks: &[&str]) -> Option<VecDeque<WEv>> {
         .collect()
 }
 
+thread_local! {
+    /// (write, read) latency in ms applied inside the first write / first read call of a port: a slow
+    /// line or a sign that takes its time to answer (used by the `serialts` cases of C18).
+    pub static PORT_LATENCY: std::cell::Cell<(u64, u64)> = const { std::cell::Cell::new((0, 0)) };
+}
+
 #[derive(Debug)]
 pub struct ScriptReader {
     pub events: VecDeque<REv>,
@@ -82,6 +88,12 @@ impl Read for ScriptReader {
     fn read(&mut self, buf: &mut [u8]) -> io::Result<usize> {
         let t0 = Instant::now();
         self.calls += 1;
+        if self.calls == 1 {
+            let ms = PORT_LATENCY.with(|c| c.get()).1;
+            if ms > 0 {
+                std::thread::sleep(Duration::from_millis(ms));
+            }
+        }
         let r = loop {
             match self.events.pop_front() {
                 None | Some(REv::Eof) => break Ok(0),
@@ -131,6 +143,12 @@ impl Write for ScriptWriter {
     fn write(&mut self, buf: &[u8]) -> io::Result<usize> {
         let t0 = Instant::now();
         self.calls += 1;
+        if self.calls == 1 {
+            let ms = PORT_LATENCY.with(|c| c.get()).0;
+            if ms > 0 {
+                std::thread::sleep(Duration::from_millis(ms));
+            }
+        }
         let r = match self.events.pop_front() {
             None => {
                 self.delivered.extend_from_slice(buf);
